@@ -62,6 +62,58 @@ var alphabet = []string{
 	" ", "#", "\"u",
 }
 
+
+// lexTails: every sub-automaton of the lexer (string, regex, block comment, line comment,
+// description, number, identifier, stray character) crossed with every way its literal can
+// continue and end: closed, cut by a newline, cut by the end of input (no final newline),
+// with valid escapes, an invalid escape, a lone backslash at the end. These are the inputs on
+// which a lexer loop can fail to stop or report a position past the end.
+func lexTails() []string {
+	var out []string
+	bodies := []string{"", "x", "é b"}
+	for _, q := range []string{"\"", "/"} { // string and regex share the shape open, body, escapes, close
+		escs := []string{"", "\\\\", "\\" + q, "\\\n", "\\q", "\\é", "\\"}
+		if q == "/" {
+			escs = []string{"", "//", "\\/", "\\q", "\\"}
+		}
+		for _, b1 := range bodies {
+			if q == "/" && b1 == "" {
+				continue // "//" is a comment
+			}
+			for _, e := range escs {
+				for _, b2 := range []string{"", "y"} {
+					for _, end := range []string{q, "", "\n", q + "\n", q + q} {
+						out = append(out, q+b1+e+b2+end)
+					}
+				}
+			}
+		}
+	}
+	for _, b := range []string{"", "c", "*", "/", "c\nd", "**", "*/x"} {
+		for _, end := range []string{"*/", "", "*", "\n", "*/\n"} {
+			out = append(out, "/*"+b+end)
+		}
+	}
+	for _, lead := range []string{"//", "|", "| ", "|\t"} {
+		for _, b := range []string{"", "c", "é", "c  ", "\"", "/*"} {
+			for _, end := range []string{"", "\n", "\r\n"} {
+				out = append(out, lead+b+end)
+			}
+		}
+	}
+	for _, n := range []string{"1", "1.", "1.2", "1.2.", "1..", "1.2.3", ".5", "1e5", "٣", "1_0", "-1"} {
+		for _, end := range []string{"", "\n", " ", "a"} {
+			out = append(out, n+end)
+		}
+	}
+	for _, c := range []string{"#", "@", "-", "$", "\\", "'", "\x00", "\xff", "\u2028"} {
+		for _, end := range []string{"", "\n", "a"} {
+			out = append(out, c+end)
+		}
+	}
+	return out
+}
+
 // all sequences over the alphabet of length <= n, rendered with sep between tokens
 func sequences(n int, sep string) []string {
 	out := []string{""}
@@ -407,7 +459,7 @@ func listTerm(items []string) string { return "[" + strings.Join(items, ";") + "
 func diagsTerm(ds []bcl.Diag) string {
 	items := make([]string, len(ds))
 	for i, d := range ds {
-		items[i] = fmt.Sprintf("(%s,%s)", posTerm(d.Start), posTerm(d.End))
+		items[i] = fmt.Sprintf("(%s,%s,%s)", posTerm(d.Start), posTerm(d.End), vh.BytesTerm(d.Msg))
 	}
 	return listTerm(items)
 }
@@ -436,7 +488,7 @@ func refNodes(r bcl.Ref) []pnode {
 
 func valueNodes(v bcl.Value) []pnode {
 	if !v.IsArray {
-		return []pnode{{9, v.Start, v.End}}
+		return []pnode{{9, v.Start, v.End}, {17, v.Tok.Start, v.Tok.End}} // the value and Value.token
 	}
 	out := []pnode{{10, v.Start, v.End}}
 	for _, e := range v.Elems {
@@ -447,6 +499,9 @@ func valueNodes(v bcl.Value) []pnode {
 
 func tagNodes(t bcl.Tag) []pnode {
 	out := []pnode{{8, t.Start, t.End}}
+	if t.Mark != 0 {
+		out = append(out, pnode{15, t.MarkTok.Start, t.MarkTok.End}) // TagValue.MarkToken
+	}
 	if t.HasRef {
 		out = append(out, refNodes(t.Ref)...)
 	} else if t.HasValue {
@@ -472,9 +527,18 @@ func headerNodes(f bcl.Frag) []pnode {
 		out = append(out, tagNodes(t)...)
 	}
 	if f.HasDesc {
-		out = append(out, pnode{12, f.Desc.Start, f.Desc.End})
+		out = append(out, descNodes(12, *f.Desc)...)
 	}
 	return append(out, commentNodes(f)...)
+}
+
+// a description (3 as a statement, 12 in a header) and its Tokens
+func descNodes(kind int, f bcl.Frag) []pnode {
+	out := []pnode{{kind, f.Start, f.End}}
+	for _, t := range f.DescToks {
+		out = append(out, pnode{16, t.Start, t.End})
+	}
+	return out
 }
 
 func assignNodes(f bcl.Frag) []pnode {
@@ -491,7 +555,7 @@ func fragNodes(f bcl.Frag) []pnode {
 	case "assign":
 		return assignNodes(f)
 	case "desc":
-		return []pnode{{3, f.Start, f.End}}
+		return descNodes(3, f)
 	case "comment":
 		return []pnode{{4, f.Start, f.End}}
 	case "close":
@@ -512,7 +576,7 @@ func stmtNodes(f bcl.Frag) []pnode {
 	case "assign":
 		return assignNodes(f)
 	case "desc":
-		return []pnode{{3, f.Start, f.End}}
+		return descNodes(3, f)
 	}
 	return []pnode{{99, f.Start, f.End}}
 }
